@@ -5,6 +5,7 @@
 //!   sim show   --prop C01 --seed n
 
 mod alias;
+mod allocguard;
 mod case;
 mod conc;
 mod db;
@@ -36,7 +37,55 @@ fn arg<'a>(args: &'a [String], name: &str) -> Option<&'a str> {
     args.iter().position(|a| a == name).and_then(|i| args.get(i + 1)).map(|s| s.as_str())
 }
 
+#[global_allocator]
+static GLOBAL: allocguard::Guard = allocguard::Guard;
+
+/// C23: run a case under the quarantining allocator; only memory-safety classes count.
+pub fn run_guarded(c: &Case) -> Option<RunOut> {
+    let before = allocguard::counters();
+    allocguard::enable(true);
+    let r = run_any_inner(c);
+    allocguard::flush();
+    allocguard::enable(false);
+    let after = allocguard::counters();
+    let mut o = r?;
+    let keep = ["held_reference_changed", "poison_read"];
+    o.viol.retain(|v| keep.contains(&v.class.as_str()));
+    if after.0 > before.0 {
+        o.viol("write_after_free", 0, format!("{} freed block(s) were written to while quarantined", after.0 - before.0));
+    }
+    if after.1 > before.1 {
+        o.viol("double_free", 0, format!("{} block(s) were freed while still quarantined", after.1 - before.1));
+    }
+    let pr = db::POISON_READS.swap(0, std::sync::atomic::Ordering::SeqCst);
+    if pr > 0 {
+        o.viol("poison_read", 0, format!("{pr} value(s) read from salsa carried the poison pattern of freed memory"));
+    }
+    o.add("blocks_quarantined", after.4 - before.4);
+    Some(o)
+}
+
+/// live bytes that one more execution of `c` leaves behind (0 for a leak-free database)
+pub fn leak_delta(c: &Case) -> i64 {
+    allocguard::enable(true);
+    let _ = run_any_inner(c);
+    allocguard::flush();
+    let b1 = allocguard::counters().2;
+    let _ = run_any_inner(c);
+    allocguard::flush();
+    let b2 = allocguard::counters().2;
+    allocguard::enable(false);
+    b2 - b1
+}
+
 pub fn run_any(c: &Case) -> Option<RunOut> {
+    if c.property == "C23" {
+        return run_guarded(c);
+    }
+    run_any_inner(c)
+}
+
+pub fn run_any_inner(c: &Case) -> Option<RunOut> {
     let r = std::panic::catch_unwind(std::panic::AssertUnwindSafe(|| match c.engine.as_str() {
         #[cfg(feature = "e3")]
         "e3" => conc::run_conc(c),
@@ -93,6 +142,15 @@ fn cmd_replay(args: &[String]) {
     let path = &args[2];
     let txt = std::fs::read_to_string(path).expect("read replay file");
     let c: Case = serde_json::from_str(&txt).expect("parse replay file");
+    if c.expect == vec!["leak".to_string()] {
+        let d = leak_delta(&c);
+        if d > 0 {
+            println!("REPRODUCED property={} classes=leak growth_bytes={d}", c.property);
+            std::process::exit(1);
+        }
+        println!("NOT-REPRODUCED property={} leak growth {d}", c.property);
+        return;
+    }
     let Some(o) = run_any(&c) else {
         println!("HARNESS-ERROR replay panicked in the harness");
         std::process::exit(2);
@@ -246,6 +304,20 @@ fn cmd_run(args: &[String]) {
         }
         if samples.len() < 2 && props::nontrivial(&c, &o) {
             samples.push(serde_json::json!({"seed": seed, "class": c.class, "program": c.prog, "history": c.hist, "knobs": c.knobs}));
+        }
+        if prop == "C23" && n % 50 == 0 {
+            let d = leak_delta(&c);
+            *stats.entry("leak_probes".into()).or_insert(0) += 1;
+            if d > 0 {
+                *stats.entry("leak_probe_growth_bytes".into()).or_insert(0) += d as u64;
+                let mut lc = c.clone();
+                lc.expect = vec!["leak".into()];
+                let dir = format!("{out_dir}/replays");
+                std::fs::create_dir_all(&dir).unwrap();
+                let path = format!("{dir}/{prop}-{seed}.leak.json");
+                std::fs::write(&path, serde_json::to_string_pretty(&lc).unwrap()).unwrap();
+                violations.push(serde_json::json!({"seed": seed, "classes": ["leak"], "replay": path, "detail": format!("live bytes grow by {d} per execution after everything was dropped"), "signature": format!("{prop}|leak")}));
+            }
         }
         if selfcheck > 0 && n % 100 < selfcheck {
             selfcheck_runs += 1;
